@@ -1124,6 +1124,17 @@ def alap_pack(rng, n):
             end = D if rng.random() < 0.8 else D - timedelta(seconds=G * rng.randint(1, 3))
             tasks.append(p.add_task("t%d" % k, effort=eff, alloc=al, mode=None if proj_alap else "alap", end=end,
                                     prio=rng.choice([None, None, 600, 400])))
+        if i % 4 == 3:
+            # the project begins on a working slot and the deadline lies a few slots later: the last task to be placed finds
+            # room only in the very FIRST slot of the tables (slot index 0)
+            start = datetime(2025, 6, 2, 9)
+            p = Proj(start=start, G=G, length="+2w", alap=proj_alap)
+            a = p.add_res("a")
+            k = rng.randint(2, 5)
+            D = start + timedelta(seconds=G * k)
+            p.add_task("long", effort=G * (k - 1), alloc=[a], mode=None if proj_alap else "alap", end=D, prio=900)
+            p.add_task("short", effort=q * rng.choice([1, 2, 3, G // q]), alloc=[a], mode=None if proj_alap else "alap",
+                       end=D - timedelta(seconds=G * rng.choice([0, 0, 1])), prio=100)
         out.append(("pack%04d" % i, p))
     return out
 
